@@ -400,16 +400,15 @@ def check(ctx):
     # the frame whose corrections are averaged: a row selection of the group's frame - one mask with &, or one selection after the other
     from ..colwrites import row_filters
     nm = [x for pc, t, n in cs.returns for x in ir.walk(t) if x[0] == "call" and ir.show(x[1]).endswith("nanmean") and x[2]
-          and x[2][0][0] == "attr" and x[2][0][2] == "values" and x[2][0][1][0] == "attr" and x[2][0][1][2] == "est_correction"]
+          and x[2][0][0] == "attr" and x[2][0][2] == "values" and ir.column_ref(x[2][0][1]) is not None and ir.column_ref(x[2][0][1])[1] == "est_correction"]
     filt = nm[0][2][0][1][1] if nm else None
     parts = row_filters(filt, DF) if filt is not None else None
     okf = False
     detail = "filter not recognised"
     if parts:
-        dist = any(p[0] == "cmp" and p[1] in ("<", "<=") and p[2] == ("attr", DF, "dist_to_observed") and p[3][0] == "attr" and p[3][2] == "max_dist_to_observed"
+        dist = any(p[0] == "cmp" and p[1] in ("<", "<=") and p[2] == ("sub", DF, ("const", "dist_to_observed")) and p[3][0] == "attr" and p[3][2] == "max_dist_to_observed"
                    and p[3][1] in (("param", "self"), ("global", "self")) for p in parts)
-        nn = any(p[0] == "call" and p[1] == ("attr", ("attr", DF, "est_correction"), "notnull") or
-                 (p[0] == "call" and p[1] == ("attr", ("attr", DF, "est_correction"), "notna")) for p in parts)
+        nn = any(p == ("call", ("attr", ("sub", DF, ("const", "est_correction")), "notnull"), (), ()) for p in parts)
         okf = dist and nn
         detail = ("only corrections that exist (regular histories) and lie close to an actual observation are used" if okf
                   else f"rows are selected by {[ir.show(p, maxdepth=4) for p in parts]}: " + ("missing the distance condition" if not dist else "missing the non-null condition"))
@@ -426,7 +425,16 @@ def check(ctx):
             for x in ir.walk(t):
                 if x[0] == "setitem" and x[2] == ("const", "dist_to_observed"):
                     dterm = x[3]
-    okdist = dterm is not None and ir.show(dterm, maxdepth=6).endswith(".abs()") and "percent_expected_vote - " in ir.show(dterm, maxdepth=6) \
-        and "nearest_observed_vote" in ir.show(dterm, maxdepth=6)
+    okdist = False
+    if dterm is not None and dterm[0] == "call" and dterm[1][0] == "attr" and dterm[1][2] == "abs" and not dterm[2]:
+        d_ = dterm[1][1]
+        if d_[0] == "bin" and d_[1] == "-":
+            l_, r_ = ir.column_ref(d_[2]), ir.column_ref(d_[3])
+            okdist = l_ is not None and r_ is not None and l_[1] == "percent_expected_vote" and r_[1] == "nearest_observed_vote"
+    elif dterm is not None and dterm[0] == "call" and dterm[1] in (("global", "numpy.abs"), ("global", "numpy.absolute")) and len(dterm[2]) == 1:
+        d_ = dterm[2][0]
+        if d_[0] == "bin" and d_[1] == "-":
+            l_, r_ = ir.column_ref(d_[2]), ir.column_ref(d_[3])
+            okdist = l_ is not None and r_ is not None and l_[1] == "percent_expected_vote" and r_[1] == "nearest_observed_vote"
     ctx.ob("C17.R6.distance", f"{ef.qualname}|distance = |percent - nearest observed percent|", okdist, ef.where(),
            "dist_to_observed = |percent_expected_vote - nearest_observed_vote|" if okdist else f"distance is {ir.show(dterm, maxdepth=4) if dterm else None}")
